@@ -1561,6 +1561,18 @@ where
     };
 
     match &self.cbor {
+      // a byte string is only compared by length under .size; on its own a
+      // numeric range never contains a byte string
+      Value::Bytes(_) if !matches!(self.state.ctrl, Some(ControlOperator::SIZE)) => {
+        self.add_error(format!(
+          "expected value to be in range {} {} value {} {}, got {:?}",
+          l,
+          if is_inclusive { "<=" } else { "<" },
+          if is_inclusive { "<=" } else { "<" },
+          u,
+          self.cbor
+        ));
+      }
       Value::Bytes(b) => {
         let len = b.len() as i128;
         if is_inclusive {
